@@ -15,7 +15,7 @@ Absent == -1
 Empty == [k \in Keys |-> Absent]
 NoBuf == [k \in Keys |-> -2]          \* "there is no buffer being flushed"
 InitState == [mut |-> Empty, flg |-> NoBuf, store |-> Empty, gen |-> 0, running |-> FALSE, result |-> "none", failed |-> FALSE, staging |-> 0,
-              minKeys |-> 1000]
+              minKeys |-> 1000, stages |-> <<>>]
 HasFlg(s) == s.flg # NoBuf
 Latest(s, k) == IF s.mut[k] # Absent THEN s.mut[k] ELSE IF HasFlg(s) /\ s.flg[k] # Absent THEN s.flg[k] ELSE s.store[k]
 Local(s, k) == IF s.mut[k] # Absent THEN s.mut[k] ELSE IF HasFlg(s) /\ s.flg[k] # Absent THEN s.flg[k] ELSE Absent
@@ -34,6 +34,10 @@ Flush(s, force) ==
   ELSE IF ~force /\ ~NeedFlush(s) THEN Ret("noflush", 0, s)
   ELSE IF HasFlg(s) /\ s.result = "err" THEN Ret("err", 0, Consume(s))
   ELSE Ret("flushed", s.gen + 1, [s EXCEPT !.flg = s.mut, !.mut = Empty, !.gen = s.gen + 1, !.running = TRUE, !.result = "none"])
+\* staging: a stage remembers the mutable buffer as it was; Release keeps the writes made since, Cleanup undoes them
+Staging(s) == Ret("ok", 0, [s EXCEPT !.staging = @ + 1, !.stages = Append(@, s.mut)])
+Release(s) == Ret("ok", 0, [s EXCEPT !.staging = @ - 1, !.stages = SubSeq(@, 1, Len(@) - 1)])
+Cleanup(s) == Ret("ok", 0, [s EXCEPT !.staging = @ - 1, !.mut = s.stages[Len(s.stages)], !.stages = SubSeq(@, 1, Len(@) - 1)])
 FlushWait(s) == IF HasFlg(s) THEN Ret(IF s.result = "err" THEN "err" ELSE "ok", 0, Consume(s)) ELSE Ret("ok", 0, s)
 \* the flush function returns: a success applies the buffer to the store tier
 FlushDone(s, ok) == [s EXCEPT !.running = FALSE, !.result = (IF ok THEN "ok" ELSE "err"), !.store = (IF ok THEN Overlay(s.store, s.flg) ELSE s.store)]
